@@ -4,5 +4,10 @@ set -u
 cd "$(dirname "$0")"
 export GOFLAGS=-mod=mod GOPROXY=off GOSUMDB=off GOTOOLCHAIN=local
 mkdir -p build evidence replays
-(cd harness && go build -tags verif -o ../build/vcheck ./cmd/vcheck) || exit 1
+build() { local out="$1" tags="$2"; shift 2; (cd harness && go build -tags "$tags" "$@" -o "../build/$out" ./cmd/vcheck); }
+build vcheck verif || exit 1
+build vcheck-purego "verif purego" || echo "setup: purego variant does not build (C20 will report it)"
+ID=C13
+. scripts/sched-variant.sh || true
+(cd harness && go vet ./core ./ref/... >/dev/null 2>&1 || true)
 echo "setup ok"
